@@ -234,6 +234,8 @@ func ClientCheck(sc sim.CScenario, h *sim.CHistory) []Problem {
 			lastCBExit = e.Seq
 		case "isstopped":
 			switch {
+			case e.Class == "in-onstop" && e.Data != "true":
+				add("C05/isstopped", "inside the OnStop hook IsStopped reports %s", e.Data)
 			case e.Class == "at-end" && e.Data != "true":
 				add("C05/isstopped", "after Close had returned IsStopped reports %s", e.Data)
 			case e.Class == "before-epilogue" && stopSeq < 0 && e.Data != "false":
@@ -350,6 +352,7 @@ func ClientCheck(sc sim.CScenario, h *sim.CHistory) []Problem {
 		if c.dlT > 0 && retT >= c.dlT {
 			deadlinePassed = true
 		}
+		matchedReply, silentMatch := false, false
 		switch c.class {
 		case "result", "rpcerror":
 			matched := false
@@ -357,16 +360,16 @@ func ClientCheck(sc sim.CScenario, h *sim.CHistory) []Problem {
 				switch r.kind {
 				case "result":
 					if c.class == "result" && jsonEqual(r.payload, c.data) {
-						matched = true
+						matched, matchedReply = true, true
 						consumed[fmt.Sprintf("%d/%d", r.recIdx, r.pos)] += name + ";"
 					}
 				case "error":
 					if c.class == "rpcerror" && jsonEqual(r.payload, c.data) {
-						matched = true
+						matched, matchedReply = true, true
 						consumed[fmt.Sprintf("%d/%d", r.recIdx, r.pos)] += name + ";"
 					}
 				case "both", "neither", "malformed":
-					matched = true // the property is silent about what such a member completes with
+					matched, silentMatch = true, true // the property is silent about what such a member completes with
 				}
 			}
 			if !matched && c.class == "rpcerror" && stopped && c.code != 0 && len(mine) == 0 {
@@ -422,8 +425,18 @@ func ClientCheck(sc sim.CScenario, h *sim.CHistory) []Problem {
 			raced := len(admissible) > 0 && (ctxEnded || stopped || deadlinePassed)
 			switch {
 			case raced:
-				if n > 1 {
+				// Which of the two won is the library's to decide, but it decides once:
+				// an answered request never sees the hook, one that ended with its
+				// context's error sees it exactly once.
+				gotReply := c.class == "result" || (c.class == "rpcerror" && matchedReply)
+				ctxOutcome := c.class == "canceled" || c.class == "deadline" || (c.class == "rpcerror" && !matchedReply && !silentMatch && c.kind == "batch" && (c.code == -32097 || c.code == -32096))
+				switch {
+				case n > 1:
 					add("C05/oncancel-count", "%s: OnCancel ran %d times", name, n)
+				case !stopped && gotReply && n != 0:
+					add("C05/oncancel-for-answered-request", "%s returned the reply %s, yet OnCancel ran for it", name, c.data)
+				case !stopped && ctxOutcome && n != 1:
+					add("C05/oncancel-count", "%s returned its context's error (%s) although a reply had been sent, and OnCancel ran %d times, want exactly 1: either the reply won (then it must be returned) or the context did (then the hook runs)", name, c.class, n)
 				}
 			case replied && n != 0:
 				add("C05/oncancel-for-answered-request", "%s was answered, yet OnCancel ran %d time(s) for it", name, n)
